@@ -161,7 +161,11 @@ func (f *FormattedProvider) SetStoreConfig(name string, config spi.StoreConfigur
 func (f *FormattedProvider) GetStoreConfig(name string) (spi.StoreConfiguration, error) {
 	storeName := strings.ToLower(name)
 
+	// the map is written under this lock (OpenStore); it is released again before OpenStore is called below
+	f.lock.RLock()
 	openStore := f.openStores[storeName]
+	f.lock.RUnlock()
+
 	if openStore == nil {
 		return spi.StoreConfiguration{}, spi.ErrStoreNotFound
 	}
@@ -193,12 +197,13 @@ func (f *FormattedProvider) GetStoreConfig(name string) (spi.StoreConfiguration,
 
 // GetOpenStores returns all currently open stores.
 func (f *FormattedProvider) GetOpenStores() []spi.Store {
+	// the length is read under the lock too: a store opened in between would be written past the end of the slice
+	f.lock.RLock()
+	defer f.lock.RUnlock()
+
 	openStores := make([]spi.Store, len(f.openStores))
 
 	var counter int
-
-	f.lock.RLock()
-	defer f.lock.RUnlock()
 
 	for _, openStore := range f.openStores {
 		openStores[counter] = openStore
